@@ -29,6 +29,10 @@ pub enum PSpec {
     Nine(u32),
     /// a hair above the rational j/(total - sub): (floor(j*1e9/base) + delta) * 1e-9
     Near { j: u16, sub: u8, delta: u8 },
+    /// all 18 decimals used: floor(S * 1e18 / total) + hair (in units of 1e-18), where S is the combined
+    /// weight of the initial voters selected by `mask` - the share of a reachable Yes tally, so that the
+    /// rounding of the required weight is decided by the digits beyond the ninth decimal
+    Share18 { mask: u8, hair: i8 },
 }
 
 #[derive(Clone, Copy, Debug, Serialize, Deserialize, PartialEq)]
@@ -168,6 +172,8 @@ fn weight() -> BoxedStrategy<u64> {
         4 => 6u64..100,
         1 => Just(1u64 << 32),
         1 => Just(1u64 << 60),
+        // token-sized weights (a staking-backed group): k * 10^12 give or take a little
+        3 => (1u64..4, -3000i64..3000).prop_map(|(k, off)| ((k * 1_000_000_000_000) as i64 + off) as u64),
     ]
     .boxed()
 }
@@ -177,6 +183,7 @@ fn pspec() -> BoxedStrategy<PSpec> {
         3 => prop_oneof![Just(500_000_000u32), Just(510_000_000), Just(600_000_000), Just(666_666_667), Just(750_000_000), Just(1_000_000_000), Just(100_000_000), Just(250_000_000), Just(333_333_334), Just(1)].prop_map(PSpec::Nine),
         2 => (0u32..=1_000_000_000).prop_map(PSpec::Nine),
         3 => (any::<u16>(), 0u8..3, 0u8..3).prop_map(|(j, sub, delta)| PSpec::Near { j, sub, delta }),
+        2 => (1u8..32, -1i8..=1).prop_map(|(mask, hair)| PSpec::Share18 { mask, hair }),
     ]
     .boxed()
 }
@@ -343,7 +350,15 @@ pub fn mcase_strategy(prop: &str, tier: Tier) -> BoxedStrategy<MCase> {
 
 // ------------------------------------------------------------------ helpers
 
-fn resolve_p(p: PSpec, lo9: u128, total: u64) -> u128 {
+fn resolve_p(p: PSpec, lo9: u128, total: u64, weights: &[u64]) -> u128 {
+    if let PSpec::Share18 { mask, hair } = p {
+        let s: u128 = weights.iter().enumerate().filter(|(i, _)| mask & (1 << (i % 8)) != 0).map(|(_, w)| *w as u128).sum();
+        let t = (total as u128).max(1);
+        let p18 = cosmwasm_std::Uint256::from(s.min(t)) * cosmwasm_std::Uint256::from(1_000_000_000_000_000_000u128) / cosmwasm_std::Uint256::from(t);
+        let p18: u128 = p18.to_string().parse().unwrap_or(1_000_000_000_000_000_000);
+        let p18 = if hair >= 0 { p18.saturating_add(hair as u128) } else { p18.saturating_sub(1) };
+        return p18.clamp(lo9.max(1) * 1_000_000_000, 1_000_000_000_000_000_000);
+    }
     let nine = match p {
         PSpec::Nine(k) => k as u128,
         PSpec::Near { j, sub, delta } => {
@@ -352,11 +367,12 @@ fn resolve_p(p: PSpec, lo9: u128, total: u64) -> u128 {
             let jj = if base > (1 << 40) { jj * (base >> 40) } else { jj };
             jj.min(base) * 1_000_000_000 / base + delta as u128
         }
+        PSpec::Share18 { .. } => unreachable!(),
     };
     nine.clamp(lo9.max(1), 1_000_000_000) * 1_000_000_000
 }
 
-fn resolve_thr(t: ThrSpec, total: u64) -> Thr {
+fn resolve_thr(t: ThrSpec, total: u64, weights: &[u64]) -> Thr {
     match t {
         ThrSpec::Count(sel) => {
             if total == 0 {
@@ -365,8 +381,8 @@ fn resolve_thr(t: ThrSpec, total: u64) -> Thr {
                 Thr::Count(1 + (((sel as u128) * (total as u128)) >> 16) as u64)
             }
         }
-        ThrSpec::Pct(p) => Thr::Pct(resolve_p(p, 500_000_000, total)),
-        ThrSpec::Quorum(t, q) => Thr::Quorum { threshold: resolve_p(t, 500_000_000, total), quorum: resolve_p(q, 1, total) },
+        ThrSpec::Pct(p) => Thr::Pct(resolve_p(p, 500_000_000, total, weights)),
+        ThrSpec::Quorum(t, q) => Thr::Quorum { threshold: resolve_p(t, 500_000_000, total, weights), quorum: resolve_p(q, 1, total, weights) },
     }
 }
 
@@ -655,7 +671,8 @@ pub fn run_mcase(prop: &str, case: &MCase, ctx: &mut CaseCtx) -> Result<(), Viol
         }
         m.values().cloned().chain(case.silent.iter().cloned()).try_fold(0u64, |s, w| s.checked_add(w))
     };
-    let thr = resolve_thr(case.thr, total_hint.unwrap_or(u64::MAX));
+    let voter_weights: Vec<u64> = case.voters.iter().map(|(_, w)| *w).collect();
+    let thr = resolve_thr(case.thr, total_hint.unwrap_or(u64::MAX), &voter_weights);
     let period = match case.period {
         Dur::Height(h) => Duration::Height(h as u64),
         Dur::Time(t) => Duration::Time(t as u64),
@@ -1230,12 +1247,25 @@ fn catch<T>(f: impl FnOnce() -> T) -> Option<T> {
 }
 
 
-fn model_passed(o: &PObs, h: u64, t: u64) -> Option<bool> {
+/// Percentages that use more than 9 decimals are decided by the library "within one vote, never
+/// stricter than exact" (the tolerance C04 states for them): `relaxed` lowers each rounded-up
+/// requirement by one for such thresholds and is used wherever the code *admits* something (Passed,
+/// Execute); the exact rule is used wherever it *refuses* (Rejected, Open, Close).
+fn slack_of(thr: Thr, relaxed: bool) -> u128 {
+    if relaxed && !thr.nine_decimals() {
+        1
+    } else {
+        0
+    }
+}
+
+fn model_passed(o: &PObs, h: u64, t: u64, relaxed: bool) -> Option<bool> {
     let tl = o.tally()?;
     if tl.total() > o.total as u128 {
         return None;
     }
-    Some(if is_expired(&o.expires, h, t) { passes_at_expiry(o.thr, o.total, &tl, 0) } else { certain_pass(o.thr, o.total, &tl, 0) })
+    let s = slack_of(o.thr, relaxed);
+    Some(if is_expired(&o.expires, h, t) { passes_at_expiry(o.thr, o.total, &tl, s) } else { certain_pass(o.thr, o.total, &tl, s) })
 }
 
 #[allow(clippy::too_many_arguments)]
@@ -1246,9 +1276,9 @@ fn oracle_c03(w: &World, pre: &Obs, post: &Obs, done: &Done, models: &[PModel], 
         Done::Execute { by, target: Some(i), ok } => {
             let m = &models[*i];
             if let Some(o) = pre.props.iter().find(|p| p.id == m.id) {
-                if let Some(mp) = model_passed(o, h, t) {
+                if let (Some(mp), Some(mp_relaxed)) = (model_passed(o, h, t, false), model_passed(o, h, t, true)) {
                     let passed = mp && !m.executed;
-                    if *ok && !passed {
+                    if *ok && !(mp_relaxed && !m.executed) {
                         return Err(v(prop, "execute-admitted-not-passed", format!("{at}: Execute succeeded on proposal {} whose ballots {:?} (total {}, {:?}, expired={}) do not imply Passed", m.id, o.ballots.values().collect::<Vec<_>>(), o.total, o.thr, is_expired(&o.expires, h, t))));
                     }
                     if !*ok && passed && w.authorised(by, &pre.members) && m.msgs.is_empty() {
@@ -1261,7 +1291,7 @@ fn oracle_c03(w: &World, pre: &Obs, post: &Obs, done: &Done, models: &[PModel], 
             let m = &models[*i];
             if let Some(o) = pre.props.iter().find(|p| p.id == m.id) {
                 let expired = is_expired(&o.expires, h, t);
-                let mp = model_passed(o, h, t).unwrap_or(false);
+                let mp = model_passed(o, h, t, false).unwrap_or(false);
                 if !expired || mp || m.executed {
                     return Err(v(prop, "close-admitted-wrongly", format!("{at}: Close succeeded on proposal {} (expired={expired}, ballots imply passed={mp}, executed={})", m.id, m.executed)));
                 }
@@ -1292,6 +1322,11 @@ fn oracle_c03(w: &World, pre: &Obs, post: &Obs, done: &Done, models: &[PModel], 
         }
         let expired = is_expired(&o.expires, h, t);
         let pass_now = if expired { passes_at_expiry(o.thr, o.total, &tl, 0) } else { certain_pass(o.thr, o.total, &tl, 0) };
+        let sl = slack_of(o.thr, true);
+        let pass_relaxed = if expired { passes_at_expiry(o.thr, o.total, &tl, sl) } else { certain_pass(o.thr, o.total, &tl, sl) };
+        if sl > 0 {
+            ctx.count("judged_with_18_decimal_threshold");
+        }
         let needed = match o.thr {
             Thr::Count(wt) => wt as u128,
             Thr::Pct(p) => ceil_mul(o.total as u128 - tl.abstain as u128, p),
@@ -1315,7 +1350,7 @@ fn oracle_c03(w: &World, pre: &Obs, post: &Obs, done: &Done, models: &[PModel], 
                     }
                     return Err(v(prop, "passed-with-zero-yes", format!("{at}: {desc}: Passed with zero Yes weight")));
                 }
-                if !pass_now {
+                if !pass_relaxed {
                     return Err(v(prop, "passed-not-implied", format!("{at}: {desc}: Passed although the threshold rule is not (certainly) satisfied")));
                 }
             }
@@ -1758,12 +1793,13 @@ pub fn decode_mcase(prop: &str, u: &mut arbitrary::Unstructured) -> MCase {
             2..=4 => 1,
             5..=8 => 1 + arb_below(u, 5) as u64,
             9 => 6 + arb_below(u, 94) as u64,
-            10 => 1u64 << 32,
-            _ => 1u64 << 60,
+            10 => if arb_bool(u, 1, 2) { 1u64 << 32 } else { 1u64 << 60 },
+            _ => ((1 + arb_below(u, 3) as u64) * 1_000_000_000_000).wrapping_add(arb_below(u, 6000) as u64).wrapping_sub(3000),
         }
     };
     let d_p = |u: &mut arbitrary::Unstructured| -> PSpec {
-        match arb_below(u, 4) {
+        match arb_below(u, 5) {
+            4 => PSpec::Share18 { mask: 1 + arb_below(u, 31) as u8, hair: arb_below(u, 3) as i8 - 1 },
             0 => PSpec::Nine([500_000_000u32, 510_000_000, 666_666_667, 750_000_000, 1_000_000_000, 100_000_000, 333_333_334, 1][arb_below(u, 8)]),
             1 => PSpec::Nine(u.arbitrary::<u32>().unwrap_or(0) % 1_000_000_001),
             _ => PSpec::Near { j: u.arbitrary().unwrap_or(0), sub: arb_below(u, 3) as u8, delta: arb_below(u, 3) as u8 },
